@@ -39,6 +39,7 @@ func (r *verifReader) Read(p []byte) (int, error) {
 }
 
 var errVerifWrite = errors.New("verif: write refused")
+var errVerifRead = errors.New("verif: read refused")
 
 // verifWriter records what it accepted; write number failAt (0-based) is refused (failAt < 0: never),
 // shortAt makes that write a short write (one byte fewer, io.ErrShortWrite semantics left to the caller).
